@@ -995,10 +995,16 @@ func (c *AbstractVariantOperations) GetElement(
 	index := int(value2.AsInteger())
 
 	if value1.Type() == Array {
+		if index < 0 || index >= value1.Length() {
+			return nil, errors.NewBadRequestError("", "INDEX_OUT_OF_RANGE", "Index is out of range")
+		}
 		return value1.GetByIndex(index), nil
 	} else if value1.Type() == String {
 		runes := []rune(value1.AsString())
-		result.SetAsString(string(runes[value2.AsInteger()]))
+		if index < 0 || index >= len(runes) {
+			return nil, errors.NewBadRequestError("", "INDEX_OUT_OF_RANGE", "Index is out of range")
+		}
+		result.SetAsString(string(runes[index]))
 		return result, nil
 	}
 
